@@ -593,7 +593,7 @@ pub fn property() -> Property {
     Property {
         id: "C10",
         subs: vec![sub::<BddQueries>(), sub::<SddQueries>()],
-        fuzz: vec![FuzzSpec { target: "queries", runs: 30000, max_len: 400 }],
+        fuzz: vec![FuzzSpec { target: "queries", runs: 10000, max_len: 400 }],
         assumptions: vec![
             "debug assertions are compiled in: a tripped debug_assert!(is_scratch_cleared()) is a violation",
             "cached_semantic_hash is not part of the interleavings (its memo is per builder and prime by design; C11 covers it); the fold-based semantic_hash is",
